@@ -122,6 +122,16 @@ def work(ctx, tier):
         if k % 11 == 0 and sc["cfg"].get("breaker"):
             sc["cfg"]["no_retry"] = True
         for e in ents:
+            if k % 4 == 1:
+                # the process escalates warnings to errors (python -W error, pytest -W error): whatever the library does with a hook's
+                # failure besides swallowing it must not turn into an exception of its own
+                import warnings
+
+                with warnings.catch_warnings():
+                    warnings.simplefilter("error")
+                    b = one_scenario(ctx, sc, e, rng, tier, stats)
+                ctx.inc("scenario_runs_with_warnings_as_errors")
+                continue
             b = one_scenario(ctx, sc, e, rng, tier, stats)
             if k == 0 and ctx.shard == 0 and len(ctx.samples) < 2:
                 ctx.sample({"scenario": {"cfg": sc["cfg"], "place": sc["place"], "call0": sc["calls"][0]}, "baseline": common.describe(b[0], 30), "plan": "each hook x each invocation index (+always) x exception type"})
@@ -154,6 +164,7 @@ def conclude(ctx):
         "sink_comparisons": (ctx.cnt["sink_comparisons"], 3000),
         "distinct (entry, hook, single/always) cells": (len(ctx.sets["cells"]), 60),
         "faulted_runs_on_the_real_event_loop": (ctx.cnt["faulted_runs_on_the_real_event_loop"], 300),
+        "scenario_runs_with_warnings_as_errors": (ctx.cnt["scenario_runs_with_warnings_as_errors"], 100),
     }
     for s in ("metric:retry", "metric:success", "metric:aborted", "metric:scheduled", "metric:max_attempts_exceeded", "metric:permanent_fail", "metric:deadline_exceeded", "metric:budget_exhausted",
               "metric:circuit_opened", "metric:circuit_rejected", "metric:circuit_half_open", "metric:circuit_closed", "before_sleep"):
